@@ -1103,3 +1103,163 @@ func ruleSER9(c *Ctx) {
 		c.Check(okB, "BuildKnowledgeBase / "+f.Name()+" rebuilt entry for entry", p.Pos(bd.Pos()), "key and nodes resolved through the import table from the same catalogue entry", whyB)
 	}
 }
+
+func init() {
+	register("SER-11", "catalogue and rebuilt knowledge base are wired to name, version, every rule entry and the working memory", 6, ruleSER11)
+}
+
+// SER-11: the top of both traversals.
+func ruleSER11(c *Ctx) {
+	p := c.P
+	mk := p.Method("ast", "KnowledgeBase", "MakeCatalog")
+	bd := p.Method("ast", "Catalog", "BuildKnowledgeBase")
+	if mk == nil || bd == nil {
+		c.AnchorLost("KnowledgeBase.MakeCatalog / Catalog.BuildKnowledgeBase")
+		return
+	}
+	kbT := p.Named("ast", "KnowledgeBase")
+	catT := p.Named("ast", "Catalog")
+	// --- MakeCatalog: catalogue name/version from the receiver; every rule entry catalogued; working memory catalogued
+	recvM := ssa.Value(receiver(mk))
+	var catAlloc *ssa.Alloc
+	for _, b := range mk.Blocks {
+		for _, in := range b.Instrs {
+			if al, ok := in.(*ssa.Alloc); ok && types.Identical(al.Type(), types.NewPointer(catT)) {
+				catAlloc = al
+			}
+		}
+	}
+	nameOK := map[string]bool{}
+	if catAlloc != nil {
+		for f, vals := range cloneFieldStores(mk, catAlloc) {
+			for _, v := range vals {
+				lf, base := fieldLoad(v)
+				if lf != nil && base == recvM {
+					if f.Name() == "KnowledgeBaseName" && lf.Name() == "Name" {
+						nameOK["name"] = true
+					}
+					if f.Name() == "KnowledgeBaseVersion" && lf.Name() == "Version" {
+						nameOK["version"] = true
+					}
+				}
+			}
+		}
+	}
+	c.Check(nameOK["name"] && nameOK["version"], "KnowledgeBase.MakeCatalog / name and version catalogued", p.Pos(mk.Pos()), "KnowledgeBaseName <- Name, KnowledgeBaseVersion <- Version", "the catalogue does not carry the knowledge base's own name/version: the loaded knowledge base is registered under another key")
+	reF := p.Field("ast", "KnowledgeBase", "RuleEntries")
+	okEntries := false
+	for _, l := range naturalLoops(mk) {
+		x := rangeOperand(l)
+		if x == nil {
+			continue
+		}
+		if f, base := fieldLoad(x); f != reF || base != recvM {
+			continue
+		}
+		early := false
+		for _, ex := range l.Exits() {
+			if ex[0].(*ssa.BasicBlock) != l.Header {
+				early = true
+			}
+		}
+		for b := range l.Blocks {
+			for _, in := range b.Instrs {
+				if ci, ok := in.(ssa.CallInstruction); ok && calleeNameIs(ci, "MakeCatalog") && len(ci.Common().Args) >= 1 && isRangeValueOf(ci.Common().Args[0], l) && passesOnEveryIteration(l, in) && !early {
+					okEntries = true
+				}
+			}
+		}
+	}
+	c.Check(okEntries, "KnowledgeBase.MakeCatalog / every rule entry is catalogued", p.Pos(mk.Pos()), "range over RuleEntries, MakeCatalog on every entry, no early exit", "some rule entries are not catalogued (skipped, or the loop ends early): they are missing after load")
+	okWM := false
+	wmF := p.Field("ast", "KnowledgeBase", "WorkingMemory")
+	for _, ci := range callsIn(mk) {
+		if calleeNameIs(ci, "MakeCatalog") && len(ci.Common().Args) >= 1 {
+			if f, base := fieldLoad(ci.Common().Args[0]); f == wmF && base == recvM {
+				okWM = mustPass(mk, func(in ssa.Instruction) bool { return in == ci.(ssa.Instruction) })
+			}
+		}
+	}
+	c.Check(okWM, "KnowledgeBase.MakeCatalog / working memory is catalogued", p.Pos(mk.Pos()), "WorkingMemory.MakeCatalog on every path", "the working memory is not catalogued: the loaded knowledge base has no invalidation index")
+	// --- BuildKnowledgeBase: returned knowledge base
+	var kbAlloc *ssa.Alloc
+	for _, b := range bd.Blocks {
+		for _, in := range b.Instrs {
+			if al, ok := in.(*ssa.Alloc); ok && types.Identical(al.Type(), types.NewPointer(kbT)) {
+				kbAlloc = al
+			}
+		}
+	}
+	if kbAlloc == nil {
+		c.Fail("BuildKnowledgeBase / builds a knowledge base", p.Pos(bd.Pos()), "no KnowledgeBase is allocated")
+		return
+	}
+	recvB := ssa.Value(receiver(bd))
+	got := map[string]bool{}
+	var wmAlloc ssa.Value
+	for f, vals := range cloneFieldStores(bd, kbAlloc) {
+		for _, v := range vals {
+			lf, base := fieldLoad(v)
+			switch f.Name() {
+			case "Name":
+				got["name"] = lf != nil && lf.Name() == "KnowledgeBaseName" && base == recvB
+			case "Version":
+				got["version"] = lf != nil && lf.Name() == "KnowledgeBaseVersion" && base == recvB
+			case "WorkingMemory":
+				wmAlloc = v
+			}
+		}
+	}
+	c.Check(got["name"] && got["version"], "BuildKnowledgeBase / name and version restored", p.Pos(bd.Pos()), "Name <- KnowledgeBaseName, Version <- KnowledgeBaseVersion", "the rebuilt knowledge base does not get the catalogued name/version")
+	// the working memory attached is the one whose maps are filled
+	okAttach := false
+	if wmAlloc != nil {
+		for _, b := range bd.Blocks {
+			for _, in := range b.Instrs {
+				if mu, ok := in.(*ssa.MapUpdate); ok {
+					if f, base := fieldLoad(mu.Map); f != nil && base == wmAlloc && strings.HasSuffix(f.Name(), "SnapshotMap") {
+						okAttach = true
+					}
+				}
+			}
+		}
+	}
+	c.Check(okAttach, "BuildKnowledgeBase / the rebuilt working memory is the one attached to the result", p.Pos(bd.Pos()), "knowledgeBase.WorkingMemory is the memory whose maps are filled", "the knowledge base returned carries another (empty) working memory than the one rebuilt")
+	// every rebuilt rule entry is registered under its own name in the result, and the result is what is returned
+	okReg := false
+	for _, b := range bd.Blocks {
+		for _, in := range b.Instrs {
+			mu, ok := in.(*ssa.MapUpdate)
+			if !ok {
+				continue
+			}
+			f, base := fieldLoad(mu.Map)
+			if f != reF || base != ssa.Value(kbAlloc) {
+				continue
+			}
+			_, isEntry := mu.Value.(*ssa.Alloc)
+			kf, kb := fieldLoad(mu.Key)
+			okKey := kf != nil && kf.Name() == "RuleName" && (kb == mu.Value || isMetaOf(kb))
+			// in the clause that builds rule entries: dominated by the allocation of that entry
+			if isEntry && okKey && isNamed(mu.Value.Type(), fullPkg("ast"), "RuleEntry") {
+				okReg = true
+			}
+		}
+	}
+	c.Check(okReg, "BuildKnowledgeBase / every rebuilt rule entry is registered under its name", p.Pos(bd.Pos()), "RuleEntries[entry.RuleName] = entry in the rule-entry clause", "rebuilt rule entries are not put into the knowledge base (or under another key): the loaded knowledge base has no such rule")
+	okRet := false
+	for _, ret := range returnsOf(bd) {
+		if len(ret.Results) == 2 && isNilConst(ret.Results[1]) && ret.Results[0] == ssa.Value(kbAlloc) {
+			okRet = true
+		}
+	}
+	c.Check(okRet, "BuildKnowledgeBase / returns the knowledge base it filled", p.Pos(bd.Pos()), "success return yields the allocated knowledge base", "the success return does not yield the knowledge base that was filled")
+}
+
+func isMetaOf(v ssa.Value) bool {
+	if v == nil {
+		return false
+	}
+	_, ok := isMetaType(v.Type())
+	return ok
+}
